@@ -366,7 +366,7 @@ def run(ctx):
         ctx.cov["traces_validated_against_impl"] += 1
 
     # ---------------------------------------------------------------- provider key length boundary
-    kf_ids = {f["id"] for f in c.load_known_findings()["findings"] if f.get("property") == "C08"}
+    # (KF-C08-1, the strict holder-side length check, was repaired in /repo 52335c84c: delta = 0 must succeed)
     for r in by.get("keylen", []):
         key = c.digest(["keylen", r["n"], r["attrs"], r["delta"]])
         seen.add(key)
@@ -379,9 +379,6 @@ def run(ctx):
             continue
         if r.get("created") == "Ok" and r.get("verified") == "OK":
             nontrivial.add(key)
-            continue
-        if (r["delta"] == 0 and r.get("created") == "Err" and "PS key must be long enough" in r.get("why", "") and "KF-C08-1" in kf_ids):
-            ctx.known_finding("KF-C08-1", "identity object issued under a minimal-length provider key (n+m+5 generators) cannot be turned into a credential (holder-side length check is strict)")
             continue
         viol(r, "identity object issued with provider key length %d (= n+m+5%+d) but credential created=%s verified=%s: %s" % (
             r["len"], r["delta"], r.get("created"), r.get("verified"), r.get("why", "")))
